@@ -118,6 +118,6 @@ def main():
     }
     json.dump(m, open(os.path.join(V, 'MANIFEST.json'), 'w'), indent=1)
 
-HOOK_COMMITS = ['eecdb5e', 'a813665', '141b24a']
+HOOK_COMMITS = ['eecdb5e', 'a813665', '141b24a', '63c46db']
 if __name__ == '__main__':
     main()
